@@ -5,16 +5,16 @@
 set -u
 P=$1; NAME=${2:-$P-a}; shift; shift || true
 CHECKS=${@:-$P}
-WT=/tmp/seed/$P
+WT=${SEED_ROOT:-/tmp/seed}/$P
 cd $WT || exit 2
 git diff -- src > seed.patch
 echo "== patch: $(wc -l < seed.patch) lines, files: $(git diff --stat -- src | tail -1)"
 echo "== existing tests with the change"
 cargo test --offline 2>&1 | grep -E "^test result|FAILED|failed" | head -5
 cargo build --offline -q 2>/dev/null
-echo "== demo WITH change"; bash ./demo.sh >/tmp/seed/$P.demo_with.log 2>&1; echo "exit=$?"
+echo "== demo WITH change"; bash ./demo.sh >$WT.demo_with.log 2>&1; echo "exit=$?"
 git apply -R seed.patch; cargo build --offline -q 2>/dev/null
-echo "== demo WITHOUT change"; bash ./demo.sh >/tmp/seed/$P.demo_without.log 2>&1; echo "exit=$?"
+echo "== demo WITHOUT change"; bash ./demo.sh >$WT.demo_without.log 2>&1; echo "exit=$?"
 git apply seed.patch; cargo build --offline -q 2>/dev/null
 echo "== checks against /repo with the patch"
 cd /repo && git apply $WT/seed.patch || { echo "PATCH DOES NOT APPLY"; exit 3; }
